@@ -254,8 +254,9 @@ def main(argv=None):
         "violations": len(unlisted),
     }
     if not replay:
-        os.makedirs(os.path.join(HERE, "evidence"), exist_ok=True)
-        json.dump(jsonable(ev), open(os.path.join(HERE, "evidence", prop + ".json"), "w"), indent=1)
+        evdir = os.environ.get("VERIF_EVIDENCE_DIR") or os.path.join(HERE, "evidence")
+        os.makedirs(evdir, exist_ok=True)
+        json.dump(jsonable(ev), open(os.path.join(evdir, prop + ".json"), "w"), indent=1)
     nobs = sum(v["n"] for v in fam.values())
     print("%s tier=%s seed=%d: %d cases (%d distinct non-trivial), %d comparisons in %d families, %d monitor events, "
           "%d violations (%d known), %d inconclusive, %.1fs" % (
